@@ -8,6 +8,7 @@ pub mod c07;
 pub mod c12;
 pub mod c14;
 pub mod c15;
+pub mod c16;
 pub mod c17;
 pub mod c18;
 pub mod c19;
@@ -28,6 +29,7 @@ pub const PROPS: &[Prop] = &[
     Prop { id: "C12", run: c12::run, replay: c12::replay },
     Prop { id: "C14", run: c14::run, replay: c14::replay },
     Prop { id: "C15", run: c15::run, replay: c15::replay },
+    Prop { id: "C16", run: c16::run, replay: c16::replay },
     Prop { id: "C17", run: c17::run, replay: c17::replay },
     Prop { id: "C18", run: c18::run, replay: c18::replay },
     Prop { id: "C19", run: c19::run, replay: c19::replay },
@@ -69,6 +71,34 @@ pub fn explore(args: &[String]) {
                 }
             }
             println!("corpus {} programs; worst ticks/byte = {:.2} (len {}, ticks {})", corpus.len(), worst.0, worst.1, worst.2);
+        }
+        Some("eval") => {
+            // qv explore eval <file> [quantum] — programs separated by a line "===="
+            let src = std::fs::read_to_string(&args[1]).expect("read");
+            let quantum: usize = args.get(2).and_then(|s| s.parse().ok()).unwrap_or(1000);
+            let reg = crate::qrun::registry();
+            let mods = crate::qrun::Modules::new();
+            for prog in src.split("\n====\n") {
+                let c = match crate::qrun::compile(prog, &mods, &reg) {
+                    Ok(c) => c,
+                    Err(e) => {
+                        println!("{}\n  => COMPILE FAIL: {e:?}\n", prog.trim());
+                        continue;
+                    }
+                };
+                let Some(entry) = c.entry else { println!("{}\n  => no code\n", prog.trim()); continue };
+                let bc = c.program.to_bytecode(Some(entry));
+                let run = crate::qrun::run_sync(&bc, &reg, quantum, 2_000_000_000, true);
+                let t = crate::hval::Tables { tuples: &bc.tuples, constants: &bc.constants };
+                let shown = match &run.end {
+                    crate::qrun::RunEnd::Value(v) => crate::hval::from_executor(v, &run.executor, &t).full(),
+                    other => format!("{other:?}"),
+                };
+                let st = &run.executor.stats;
+                println!("{}\n  => {shown} : {}\n     peaks frames={} locals={} stack={} heap_slots={} slices={}\n", prog.trim(),
+                    quiver_core::format::format_type(&c.program, &c.program.get_types()[c.result_type]),
+                    st.peak_frame_count, st.peak_locals_size, st.peak_stack_size, run.executor.heap_stats().slots, run.slices);
+            }
         }
         Some("sim") => {
             // qv explore sim <file> [workers] [quantum]
